@@ -791,18 +791,6 @@ def value_getattr(I, a, name):
                 return [r.get(i) for i in range(r.shape[0])]
             raise Unsupported('tolist of symbolic-length array')
         return meth(tolist)
-    if name == 'mean':
-        def mean(I, r, args, kw):
-            if args or kw:
-                raise Unsupported('mean with axis')
-            return mean_of(I, r)
-        return meth(mean)
-    if name == 'sum':
-        def sum_(I, r, args, kw):
-            if args or kw:
-                raise Unsupported('sum with axis')
-            return sum_of(I, r)
-        return meth(sum_)
     if name == 'repeat':
         def repeat(I, r, args, kw):
             k = args[0]
@@ -827,12 +815,19 @@ def value_getattr(I, a, name):
         return meth(reshape)
     if name == 'strip' or name == 'lower':
         return None
-    if name in ('min', 'max'):
-        def mm(I, r, args, kw):
-            if args or kw:
-                raise Unsupported(name + ' with axis')
-            return extremum(I, r, name)
-        return meth(mm)
+    if name in REDUCERS:
+        def red(I, r, args, kw, name=name):
+            axis = kw.get('axis', args[0] if args else None)
+            keep = kw.get('keepdims', False)
+            if axis is None and not keep:
+                if name in ('min', 'max'):
+                    return extremum(I, r, name)
+                if name == 'mean':
+                    return mean_of(I, r)
+                if name == 'sum':
+                    return sum_of(I, r)
+            return reduce_axis(I, r, name, axis, keep)
+        return meth(red)
     if name == 'filled':
         def filled(I, r, args, kw):
             fv = args[0] if args else kw.get('fill_value')
@@ -852,6 +847,52 @@ def value_getattr(I, a, name):
     if name in ('units', 'calendar', 'bounds', 'long_name', 'var_desc', 'missing_value', 'fill_value', '_FillValue', 'scale_factor', 'add_offset', 'name', '_name', 'standard_name'):
         raise PyExc('AttributeError', name)   # a netCDF attribute this variable does not have
     return None
+
+
+REDUCERS = ('mean', 'sum', 'min', 'max', 'std', 'var', 'prod', 'median', 'ptp')
+
+
+def reduce_axis(I, a, how, axis, keepdims):
+    """a.<how>(axis=k, keepdims=...): the reduction itself is an UNINTERPRETED function of the remaining indices (for min/max
+    with the bound property); what is recorded -- and what contracts speak about -- is WHICH array was reduced along WHICH
+    axis by WHICH reducer (ghost list 'reductions')"""
+    if a.mask is not None:
+        raise Unsupported('reduction of a masked array')
+    if axis is None:
+        axes = list(range(a.ndim))
+    elif isinstance(axis, int):
+        axes = [axis % a.ndim]
+    elif is_sym(axis):
+        raise Unsupported('symbolic axis')
+    else:
+        raise Unsupported('reduction over several axes')
+    I.ctx.trust('numpy reductions with axis/keepdims: uninterpreted function of the remaining indices (min/max: a bound of the reduced elements)')
+    snap, imap = a.buf.get, a.imap
+    src_get = lambda q: snap(imap(tuple(q)))
+    rest_n = a.ndim - len(axes)
+    kind = 'f' if how in ('mean', 'std', 'var', 'median') else (a.kind if a.kind in 'fi' else 'f')
+    f = z3.Function('%s_%d' % (how, next(_ids)), *([z3.IntSort()] * max(rest_n, 1) + [sort_of(kind)]))
+    src_shape = a.shape
+
+    def rest(q_full):
+        r = [x for k, x in enumerate(q_full) if k not in axes]
+        return r or [0]
+    if keepdims:
+        shp = tuple(1 if k in axes else s for k, s in enumerate(a.shape))
+        get = lambda q: f(*[sym.to_z3(x) for x in rest(q)])
+    else:
+        shp = tuple(s for k, s in enumerate(a.shape) if k not in axes)
+        get = lambda q: f(*[sym.to_z3(x) for x in (list(q) or [0])])
+    res = SArr(shp, get, kind, tag=how)
+    if how in ('min', 'max'):
+        q = a.idx_vars('rd')
+        cmp = sym.le if how == 'max' else sym.ge
+        I.ctx.assume(z3.ForAll(list(q), sym.Implies(a.in_range(q), cmp(src_get(q), f(*[sym.to_z3(x) for x in rest(q)])))))
+    I.ctx.ghost.setdefault('reductions', []).append(dict(how=how, axes=tuple(axes), keepdims=bool(keepdims), src_buf=a.buf, src_get=src_get,
+                                                         src_shape=src_shape, result=res))
+    if not shp:
+        return res.get(())
+    return res
 
 
 def extremum(I, a, how):
